@@ -197,8 +197,7 @@ theorem remove_spec (hc : CfgFor cfg T L) {e : SingleElems} {ℓ : Nat} {path : 
     · simp only; rw [hAB, eraseIdx_zipper, ← hAB]; exact heff
     · simp only; omega
 
-theorem opsSpec (hT : legalThreshold T = true) (hc : CfgFor cfg T L) :
-    OpsSpec T L D cfg SingleElems.ops (ElemsInv T L D 0) 0 where
+theorem opsStruct : OpsStruct T L D SingleElems.ops (ElemsInv T L D 0) 0 where
   level_eq := by
     intro ℓ path e h; have := ((inv_iff ℓ path e).mp h).1; omega
   keys := by
@@ -208,6 +207,22 @@ theorem opsSpec (hT : legalThreshold T = true) (hc : CfgFor cfg T L) :
     exact ⟨this.1.1, this.2⟩
   distinct := by
     intro ℓ path e h; exact ((inv_iff ℓ path e).mp h).2.2.2.2
+  ordered := by
+    intro ℓ path e h
+    have hinv := (inv_iff ℓ path e).mp h
+    show ((e.elems.map pairOf).map _).Pairwise _
+    rw [List.map_map, List.pairwise_map]
+    apply List.Pairwise.imp_of_mem (R := fun _ _ => True)
+    · intro a b ha hb _
+      left
+      have h1 := hinv.2.2.2.1 a ha
+      have h2 := hinv.2.2.2.1 b hb
+      have l1 := h1.1.1.digs_length
+      have l2 := h2.1.1.digs_length
+      simp only [Function.comp, pairOf]
+      rw [← List.take_of_length_le (Nat.le_of_eq l1), ← List.take_of_length_le (Nat.le_of_eq l2),
+        ← hinv.1, h1.2, h2.2]
+    · exact List.pairwise_of_forall (fun _ _ => trivial)
   count_pos := by
     intro ℓ path e h
     show 1 ≤ e.elems.length ↔ e.elems.map pairOf ≠ []
@@ -236,6 +251,10 @@ theorem opsSpec (hT : legalThreshold T = true) (hc : CfgFor cfg T L) :
     intro e c
     show e.elems.reverse.map _ = (e.elems.map _).reverse
     rw [List.map_reverse]
+
+theorem opsSpec (hT : legalThreshold T = true) (hc : CfgFor cfg T L) :
+    OpsSpec T L D cfg SingleElems.ops (ElemsInv T L D 0) 0 where
+  toOpsStruct := opsStruct
   newWith := by
     intro ℓ path x hℓ hx hp
     have hℓ' : ℓ = cfg.L := by rw [hc.hL]; omega
